@@ -4,7 +4,7 @@
    extracted driver and vm_compute inside Coq run literally the same decoder. Definitions only. *)
 From Coq Require Import ZArith NArith List Bool.
 From SG Require Import Structure.Tree Structure.Names Structure.Config Structure.Placement
-     Structure.Scan Structure.F64 Structure.Limits Structure.Siblings Structure.Spec.
+     Structure.Scan Structure.F64 Structure.Limits Structure.Siblings Structure.Spec Structure.Roots.
 Import ListNotations.
 Open Scope Z_scope.
 
@@ -286,4 +286,11 @@ Definition stemfns_sx (s : sx) : sx :=
       | _, _, _ => L [I (-1)]
       end
   | _ => L [I (-1)]
+  end.
+
+(* resolve_scan_paths: L [key; ..] (marked normalised keys, root first) -> indices of the walked roots *)
+Definition roots_sx (s : sx) : sx :=
+  match d_list (d_list d_str) s with
+  | Some keys => L (map (fun i => I (Z.of_nat i)) (kept keys))
+  | None => L [I (-1)]
   end.
